@@ -132,11 +132,14 @@ func init() {
 					` || (neq($client.ApplicationType(), op.ApplicationTypeNative) && true(strings.HasPrefix($uri, "https://")) && ok(op.checkURIAgainstRedirects($client, $uri)))` +
 					` || (neq($client.ApplicationType(), op.ApplicationTypeNative) && ok(op.checkURIAgainstRedirects($client, $uri)) && true(strings.HasPrefix($uri, "http://")) && (true($client.DevMode()) || (eq($responseType, oidc.ResponseTypeCode) && true(op.IsConfidentialType($client)))))`}},
 		{ID: "E1.redirect.validate.reject", Fn: "op.ValidateAuthReqRedirectURI", P: []string{"client", "uri", "responseType"}, Kind: "ret fail", Min: 5, Req: []string{"rdErr($r0)"}},
-		{ID: "E1.redirect.native.accept", Fn: "op.validateAuthReqRedirectURINative", P: []string{"client", "uri"}, Kind: "ret ok", Min: 4, Max: 4,
+		// accepted exactly when registered and (dev mode, https, loopback or a custom scheme), or not registered but loopback and
+		// equal in path and query to a registered loopback URI; stated on the success outcome, however the code spells it
+		{ID: "E1.redirect.native.accept", Fn: "op.validateAuthReqRedirectURINative", P: []string{"client", "uri"}, Kind: "ret ok",
 			Req: []string{
-				"(ok(op.checkURIAgainstRedirects($client, $uri)) && (true($client.DevMode()) || (false($lb) && true(strings.HasPrefix($uri, \"https://\"))) || true($lb) || (true($cs) && def($cs, !(strings.HasPrefix($uri, \"http://\") || strings.HasPrefix($uri, \"https://\"))))))" +
-					" || (fail(op.checkURIAgainstRedirects($client, $uri)) && true($lb) && inloop($reg, $client.RedirectURIs()) && def($ru, op.HTTPLoopbackOrLocalhost($reg), 0) && ok(op.HTTPLoopbackOrLocalhost($reg)) && true(op.equalURI($parsed, $ru)) && def($parsed, op.HTTPLoopbackOrLocalhost($uri), 0))",
-				"def($lb, op.HTTPLoopbackOrLocalhost($uri), 1)"}},
+				"def($lb, op.HTTPLoopbackOrLocalhost($uri), 1)",
+				"(ok(op.checkURIAgainstRedirects($client, $uri)) && (true($client.DevMode()) || true(strings.HasPrefix($uri, \"https://\")) || true($lb) || (false(strings.HasPrefix($uri, \"http://\")) && false(strings.HasPrefix($uri, \"https://\")))))" +
+					" || (fail(op.checkURIAgainstRedirects($client, $uri)) && true($lb) && some($client.RedirectURIs(), true(op.equalURI(res(0, op.HTTPLoopbackOrLocalhost($uri)), res(0, op.HTTPLoopbackOrLocalhost(ELEM))))) && some($client.RedirectURIs(), true(res(1, op.HTTPLoopbackOrLocalhost(ELEM)))))",
+			}},
 		{ID: "E1.redirect.native.reject", Fn: "op.validateAuthReqRedirectURINative", P: []string{"client", "uri"}, Kind: "ret fail", Min: 3, Req: []string{"rdErr($r0)"}},
 		{ID: "E7.redirect.equaluri", Fn: "op.equalURI", P: []string{"a", "b"}, Kind: "ret any", Pat: "ret(($a.Path == $b.Path) && ($a.RawQuery == $b.RawQuery))", Max: 1, Only: true},
 		{ID: "E7.redirect.equaluri.only", Fn: "op.equalURI", Kind: "ret any", Max: 1},
@@ -210,7 +213,7 @@ func init() {
 			RunE1(c, "C03", obs)
 			RunAllowedCallees(c, "E7.redirect.match-operators",
 				[]string{"op.checkURIAgainstRedirects", "op.ValidateAuthReqRedirectURI", "op.validateAuthReqRedirectURINative", "op.equalURI", "op.HTTPLoopbackOrLocalhost", "op.ValidateEndSessionPostLogoutRedirectURI"},
-				[]string{"slices.Contains", "doublestar.Match", "path.Match", "strings.HasPrefix", "url.Parse", "net.ParseIP", "IsLoopback", "Hostname",
+				[]string{"slices.Contains", "slices.ContainsFunc", "slices.Index", "slices.IndexFunc", "doublestar.Match", "path.Match", "strings.HasPrefix", "url.Parse", "net.ParseIP", "IsLoopback", "Hostname",
 					"RedirectURIs", "RedirectURIGlobs", "PostLogoutRedirectURIs", "PostLogoutRedirectURIGlobs", "ApplicationType", "DevMode",
 					"op.IsConfidentialType", "op.checkURIAgainstRedirects", "op.validateAuthReqRedirectURINative", "op.HTTPLoopbackOrLocalhost", "op.equalURI",
 					"oidc.ErrInvalidRequestRedirectURI", "oidc.ErrServerError", "oidc.ErrInvalidRequest", "WithDescription", "WithParent"},
